@@ -7,7 +7,7 @@ yet hold the level, VersionCodec maps level 4/5 by value and never consumes byte
 CONNECT decoder refuses the other level; limits: every negotiated limit (keep-alive, announced
 keep-alive, inbound/outbound maximum packet size, maximum QoS, topic alias maximum, receive maximum,
 send window) flows from its negotiated source to the setter that enforces it on the accept path.
-Behaviour for every fragmentation and the numeric 1.5 factor are not decided. limits (continued): a limit announced in CONNACK that was pre-set from the configuration is overwritten unconditionally (None = no limit); the v5 client uses the CONNACK Server Keep Alive as is (not combined with its own value). limits (continued): the value handed to an enforcing setter is the negotiated field itself, not a combination (min/max/arithmetic) with another value - except the send window, which is a minimum by definition (C05).
+Behaviour for every fragmentation and the numeric 1.5 factor are not decided. limits (continued): a limit announced in CONNACK that was pre-set from the configuration is overwritten unconditionally (None = no limit); the v5 client uses the CONNACK Server Keep Alive as is (not combined with its own value). limits (continued): the value handed to an enforcing setter is the negotiated field itself, not a combination (min/max/arithmetic) with another value - except the send window, which is a minimum by definition (C05). limits (continued): set_receive_max, set_topic_alias_max, v5 set_max_inbound_size and v3 set_max_size store the value they are given, unchanged, on every path.
 """
 from facts import *
 from disp import agg_sites
